@@ -157,6 +157,8 @@ fn main() {
                     let _ = j.flush();
                 }
                 run_one(&prop, &mut ctx, idx);
+                let key = format!("cases_run_in_{}_build", ctx.flavour);
+                ctx.rep.count(&key, 1);
                 idx += nshards;
             }
             if let Some(j) = journal.as_mut() {
